@@ -93,9 +93,10 @@ def wrapZeroCheck (prog : List MStep) : Bool :=
   | some (m, v) => decide (v = 0) && decide (m.pages = 1)
   | none => false
 
-/-- a grow poised at its write of `pages` while a `memory.size` is poised at its read (DESIGN §6 #18) -/
+/-- a grow poised at its write of `pages` while an UNLOCKED read of `pages` (memory.size as emitted before
+    ee826ee) is poised at its read (DESIGN §6 #18) -/
 def cfgGrowSize (prog : List MStep) : Cfg :=
-  { imm := { maxPages := 10 }, prog := fun t => if t = 0 then prog else sizeSteps, arg := fun _ => 1,
+  { imm := { maxPages := 10 }, prog := fun t => if t = 0 then prog else plainSizeSteps, arg := fun _ => 1,
     isGrow := fun t => t = 0 }
 
 def sizeRaceAfter (prog : List MStep) (k : Nat) : Bool :=
